@@ -328,6 +328,20 @@ def r5(ctx, F, rule, sfx):
                 if e.callee and strip_generics(e.callee).endswith('ConvexCell::' + callee):
                     ok2 = True
         ctx.check(rule, '%s:per-cell-function%s' % (name, sfx), ok2, 'filter_map closures: %d' % len(runs), 'cell.as_ref().map(|c| c.%s(..))' % callee, where(b), key_extra='percell:' + name)
+    # the iterator over the constructed cells: the Some payloads of the cell slots, in slot order, nothing else dropped
+    cib = F.body_by_suffix('VoronoiIntegrator::cells_iter', required=False) if hasattr(F, 'body_by_suffix') else None
+    if cib is not None:
+        ipc = I.Interp(F)
+        mev = I.Sym(nf.sym_atom('vi'), 'voronoi::VoronoiIntegrator<M>')
+        civ, _ = ipc.call_body(cib, [ipc.ref_to(mev)])
+        ctx.evaluations += ipc.evaluations
+        chc, srcc = stream_chain(I.frozen(civ))
+        nmc = [n for n, _ in chc]
+        runs_c = [r for r in ipc.closure_runs if r['adaptor'] in ('filter_map', 'flatten', 'flat_map')]
+        okc = (nmc in (['filter_map', 'iter'], ['flatten', 'iter'], ['flatten', 'map', 'iter']) and repr(srcc) == 'vi.cells')
+        if okc and nmc[0] == 'filter_map':
+            okc = len(runs_c) == 1 and I.vkey(I.frozen(runs_c[0]['result'])) == I.vkey(I.frozen(runs_c[0]['item']))      # the slot's own Option (as_ref is a borrow)
+        ctx.check(rule, 'cells_iter:constructed-cells-in-slot-order' + sfx, okc, '%s over %r' % (' <- '.join(nmc), srcc), 'self.cells.iter().filter_map(|c| c.as_ref())', where(cib), key_extra='cells-iter')
     for which in ('direct', 'integrals', 'sym'):
         s = faces.site(F, which)
         c03.stored_in_plane_order(ctx, rule, sfx, s, which)
